@@ -29,12 +29,13 @@ BIG = {
             "thorough": [(n, n) for n in (63, 64, 65, 66, 96, 100, 127, 128, 129, 130, 200)]},
     "ls": {"quick": [(40, 33), (140, 130)],
            "thorough": [(40, 33), (70, 64), (129, 129), (140, 130), (200, 150), (161, 161)]},
+    "pb": {"quick": [(90, 66), (40, 33)], "thorough": [(130, 70), (100, 65), (90, 66), (70, 64), (40, 33)]},   # (n, kd)
     "td": {"quick": [(70, 70), (200, 200)], "thorough": [(33, 33), (70, 70), (129, 129), (200, 200)]},
     "aux": {"quick": [(45, 60), (70, 33)], "thorough": [(45, 60), (70, 33), (130, 129), (64, 200)]},
     "larft": {"quick": [], "thorough": []},
 }
 LEMMA = {"quick": dict(SMALL=5, BIG=[(12, 12), (9, 14)]), "thorough": dict(SMALL=8, BIG=[(20, 20), (33, 30), (14, 25)])}
-FAMS = ("lu", "chol", "qr", "qp3", "tri", "ls", "td", "aux", "larft")
+FAMS = ("lu", "chol", "qr", "qp3", "tri", "ls", "pb", "td", "aux", "larft")
 NOFORCE = ("larft", "td", "aux")   # families without block-size dependent code
 FORCED = {"quick": [(1, 0), (2, 0), (3, 0), (4, 0), (2, 2), (3, 2)],
           "thorough": [(nb, nx) for nb in (1, 2, 3, 4, 5, 7) for nx in (0, 2)]}
@@ -59,7 +60,7 @@ def run(ctx):
     # ---- R1: uniqueness / definition lemmas behind the planted instances --------------------
     lm = LEMMA[ctx.tier]
     for fam in FAMS:
-        big = lm["BIG"] if fam in ("lu", "qr", "qp3") else [(m + n, n) for m, n in lm["BIG"]] if fam == "ls" else [(n, n) for _, n in lm["BIG"]] if fam in ("chol", "tri", "td") else lm["BIG"] if fam == "aux" else []
+        big = lm["BIG"] if fam in ("lu", "qr", "qp3") else [(m + n, n) for m, n in lm["BIG"]] if fam == "ls" else [(n, n) for _, n in lm["BIG"]] if fam in ("chol", "tri", "td") else lm["BIG"] if fam == "aux" else [(12, 3), (9, 9)] if fam == "pb" else []
         ctx.tlc("lapack/PlantedLemmas.tla", "lapack/PlantedLemmas.cfg", name="R1 PlantedLemmas %s" % fam,
                 subst=dict(FAM=fam, SMALL=lm["SMALL"], BIG=enc(big), NRHS=2, SEED=ctx.seed), workers=4)
 
